@@ -5,9 +5,10 @@ Local Open Scope N_scope.
 
 Section WithMethods.
 Variable mof : N -> N.
-Variable qof : N -> qargs.
+Variable qof : N -> option qargs.
+Variable pq : N -> qargs.
 
-Lemma run_app s evs evs' : run mof qof s (evs ++ evs') = run mof qof (run mof qof s evs) evs'.
+Lemma run_app s evs evs' : run mof qof pq s (evs ++ evs') = run mof qof pq (run mof qof pq s evs) evs'.
 Proof. unfold run. apply fold_left_app. Qed.
 
 Lemma wire_reqs_app w w' : wire_reqs (w ++ w') = wire_reqs w ++ wire_reqs w'.
@@ -40,14 +41,14 @@ Proof.
   exists []. split; [reflexivity | now left].
 Qed.
 
-Lemma inv_enq all s t : Inv all s -> Inv (all ++ [t]) (enq s t).
+Lemma inv_enq all s t : Inv all s -> Inv (all ++ [t]) (enq qof s t).
 Proof.
   intros (H1 & H2 & H3 & H4). unfold Inv, enq, inflight in *. cbn [queue waited latest responses redirects sent wire].
   split4; auto.
   rewrite !map_app, H1. cbn [map]. now rewrite <- !app_assoc.
 Qed.
 
-Lemma inv_pump all s : Inv all s -> Inv all (pump mof qof s).
+Lemma inv_pump all s : Inv all s -> Inv all (pump mof qof pq s).
 Proof.
   intros HI. unfold pump.
   destruct (waited s) eqn:Hw; [exact HI|].
@@ -121,22 +122,22 @@ Proof.
 Qed.
 
 Lemma inv_step all s e :
-  Inv all s -> Inv (all ++ match e with Enq t => [t] | Pass _ => [] end) (step mof qof s e).
+  Inv all s -> Inv (all ++ match e with Enq t => [t] | Pass _ => [] end) (step mof qof pq s e).
 Proof.
   intros HI. destruct e as [t|o]; cbn [step].
   - now apply inv_enq.
   - rewrite app_nil_r. pose proof (inv_pump all s HI) as HP.
     destruct o as [r|]; [|assumption].
-    destruct (waited (pump mof qof s)) eqn:Hw; [|assumption].
-    destruct (sent (pump mof qof s)) eqn:Hs; [|assumption].
-    cbn [andb]. destruct (readable (pump mof qof s) r); [now apply inv_complete | assumption].
+    destruct (waited (pump mof qof pq s)) eqn:Hw; [|assumption].
+    destruct (sent (pump mof qof pq s)) eqn:Hs; [|assumption].
+    cbn [andb]. destruct (readable (pump mof qof pq s) r); [now apply inv_complete | assumption].
 Qed.
 
-Lemma inv_run : forall evs all s, Inv all s -> Inv (all ++ enqs evs) (run mof qof s evs).
+Lemma inv_run : forall evs all s, Inv all s -> Inv (all ++ enqs evs) (run mof qof pq s evs).
 Proof.
   induction evs as [|e evs IH]; intros all s HI; cbn [run fold_left enqs].
   - now rewrite app_nil_r.
-  - apply (inv_step all s e) in HI. apply IH in HI. fold (run mof qof (step mof qof s e) evs).
+  - apply (inv_step all s e) in HI. apply IH in HI. fold (run mof qof pq (step mof qof pq s e) evs).
     destruct e; cbn [enqs]; [now rewrite <- app_assoc in HI | now rewrite app_nil_r in HI].
 Qed.
 
@@ -158,7 +159,7 @@ Qed.
 (* FIFO, one entry per request, at most one in flight; requests reach the wire
    in queue order and at most one of them is unanswered. *)
 Theorem fifo sec rd m evs :
-  let s := run mof qof (init_m sec rd m) evs in
+  let s := run mof qof pq (init_m sec rd m) evs in
   map Some (enqs evs) = map origin (responses s) ++ inflight s ++ map Some (queue s)
   /\ (length (inflight s) <= 1)%nat
   /\ (exists rest, enqs evs = wire_reqs (wire s) ++ rest)
@@ -181,7 +182,7 @@ Qed.
 Definition InvS (s : cstate) : Prop :=
   https s = true /\ Forall (fun w => w_https w = true) (wire s).
 
-Lemma invS_pump s : InvS s -> InvS (pump mof qof s).
+Lemma invS_pump s : InvS s -> InvS (pump mof qof pq s).
 Proof.
   intros [H1 H2]. unfold pump. destruct (waited s); [now split|].
   destruct (queue s); [now split|]. split; cbn [https wire]; [assumption|].
@@ -205,19 +206,19 @@ Proof.
     constructor; [reflexivity | constructor].
 Qed.
 
-Lemma invS_step s e : InvS s -> InvS (step mof qof s e).
+Lemma invS_step s e : InvS s -> InvS (step mof qof pq s e).
 Proof.
   intros H. destruct e as [t|o]; cbn [step]; [exact H|].
   apply invS_pump in H. destruct o as [r|]; [|assumption].
-  destruct (waited (pump mof qof s) && sent (pump mof qof s) && readable (pump mof qof s) r); [now apply invS_complete | assumption].
+  destruct (waited (pump mof qof pq s) && sent (pump mof qof pq s) && readable (pump mof qof pq s) r); [now apply invS_complete | assumption].
 Qed.
 
 Theorem https_kept rd m evs :
-  let s := run mof qof (init_m true rd m) evs in
+  let s := run mof qof pq (init_m true rd m) evs in
   https s = true /\ Forall (fun w => w_https w = true) (wire s).
 Proof.
   cbn zeta. unfold run.
-  assert (G : forall evs s, InvS s -> InvS (fold_left (step mof qof) evs s)).
+  assert (G : forall evs s, InvS s -> InvS (fold_left (step mof qof pq) evs s)).
   { induction evs0 as [|e evs0 IH]; intros s H; [assumption|]. cbn [fold_left]. apply IH. now apply invS_step. }
   apply G. split; [reflexivity | constructor].
 Qed.
@@ -278,25 +279,25 @@ Proof.
     + unfold InvH. cbn [redirects latest responses]. auto.
 Qed.
 
-Lemma invH_step all s e : Inv all s -> InvH s -> InvH (step mof qof s e).
+Lemma invH_step all s e : Inv all s -> InvH s -> InvH (step mof qof pq s e).
 Proof.
   intros HI H. destruct e as [t|o]; cbn [step].
   - exact H.
-  - assert (HP : InvH (pump mof qof s)).
+  - assert (HP : InvH (pump mof qof pq s)).
     { unfold pump. destruct (waited s) eqn:Hw; [exact H|]. destruct (queue s); [exact H|].
       destruct HI as (_ & H2 & _). specialize (H2 Hw). destruct H as (A & B & C & D).
       unfold InvH. cbn [redirects latest responses]. rewrite H2.
       split; [constructor|]. split; [exact I|]. split; [congruence | assumption]. }
     destruct o as [r|]; [|assumption].
-    destruct (waited (pump mof qof s) && sent (pump mof qof s) && readable (pump mof qof s) r); [now apply invH_complete | assumption].
+    destruct (waited (pump mof qof pq s) && sent (pump mof qof pq s) && readable (pump mof qof pq s) r); [now apply invH_complete | assumption].
 Qed.
 
 Theorem history_attached sec rd m evs :
-  Forall good_entry (responses (run mof qof (init_m sec rd m) evs)).
+  Forall good_entry (responses (run mof qof pq (init_m sec rd m) evs)).
 Proof.
-  assert (G : forall evs all s, Inv all s -> InvH s -> InvH (run mof qof s evs)).
+  assert (G : forall evs all s, Inv all s -> InvH s -> InvH (run mof qof pq s evs)).
   { induction evs0 as [|e evs0 IH]; intros all s HI H; [assumption|]. cbn [run fold_left].
-    fold (run mof qof (step mof qof s e) evs0). eapply IH; [eapply inv_step; eassumption | eapply invH_step; eassumption]. }
+    fold (run mof qof pq (step mof qof pq s e) evs0). eapply IH; [eapply inv_step; eassumption | eapply invH_step; eassumption]. }
   destruct (G evs [] (init_m sec rd m) (inv_init sec rd m)) as (_ & _ & _ & D); [|exact D].
   unfold InvH, init_m. cbn. split; [constructor|]. split; [exact I|]. split; [congruence | constructor].
 Qed.
@@ -336,38 +337,93 @@ Lemma deliver_targets s st err c :
     /\ e_target e = rq_target s /\ e_targets e = rtargets s /\ e_history e = redirects s.
 Proof. eexists. split; [reflexivity|]. cbn. auto. Qed.
 
-(* every original request goes on the wire with exactly its own query arguments *)
-Definition InvQ (s : cstate) : Prop :=
-  Forall (fun w => match w_item w with WReq t => w_q w = qof t | WRedir _ => True end) (wire s).
+(* every original request goes on the wire with exactly the target it was queued with: the qargs its
+   request dict got in Client.request (recorded in the append-only qlog when it was queued) merged with
+   the query of its own path - whatever was queued, sent or answered in between *)
+Definition wire_ok (lg : list (N * qargs)) (w : wentry) : Prop :=
+  match w_item w with WReq t => w_q w = merge (qlookup lg t) (pq t) | WRedir _ => True end.
 
-Lemma invQ_step s e : InvQ s -> InvQ (step mof qof s e).
+Lemma qlookup_app_keep lg t x q :
+  In t (map fst lg) -> qlookup (lg ++ [(x, q)]) t = qlookup lg t.
 Proof.
-  intros H. destruct e as [t|o]; cbn [step]; [exact H|].
-  assert (HP : InvQ (pump mof qof s)).
-  { unfold pump. destruct (waited s); [exact H|]. destruct (queue s); [exact H|].
-    unfold InvQ. cbn [wire]. destruct (cut s); [exact H|]. apply Forall_app. split; [exact H|].
-    constructor; [reflexivity | constructor]. }
+  induction lg as [|[k v] lg IH]; intros H; [destruct H|]. cbn [List.app qlookup].
+  destruct (k =? t) eqn:E; [reflexivity|]. apply IH. cbn [map fst In] in H.
+  destruct H as [H|H]; [apply N.eqb_neq in E; congruence | exact H].
+Qed.
+
+(* tags on the wire were queued before: their qlog entry exists and later queueing cannot change it *)
+Definition InvQ (s : cstate) : Prop :=
+  Forall (wire_ok (qlog s)) (wire s)
+  /\ Forall (fun w => match w_item w with WReq t => In t (map fst (qlog s)) | WRedir _ => True end) (wire s)
+  /\ Forall (fun t => In t (map fst (qlog s))) (queue s).
+
+Lemma invQ_enq s t : InvQ s -> InvQ (enq qof s t).
+Proof.
+  intros (A & B & C). unfold InvQ, enq. cbn [qlog wire queue]. split; [|split].
+  - rewrite Forall_forall in *. intros w Hw. specialize (A w Hw). specialize (B w Hw). unfold wire_ok in *.
+    destruct (w_item w); [|exact I]. now rewrite qlookup_app_keep.
+  - rewrite Forall_forall in *. intros w Hw. specialize (B w Hw). destruct (w_item w); [|exact I].
+    rewrite map_app. apply in_or_app. now left.
+  - apply Forall_app. split.
+    + rewrite Forall_forall in *. intros x Hx. rewrite map_app. apply in_or_app. left. now apply C.
+    + constructor; [|constructor]. rewrite map_app. apply in_or_app. right. now left.
+Qed.
+
+Lemma invQ_step s e : InvQ s -> InvQ (step mof qof pq s e).
+Proof.
+  intros H. destruct e as [t|o]; cbn [step]; [now apply invQ_enq|].
+  assert (HP : InvQ (pump mof qof pq s)).
+  { unfold pump. destruct (waited s); [exact H|]. destruct (queue s) as [|t q] eqn:Hq; [exact H|].
+    destruct H as (A & B & C). rewrite Hq in C. inversion C as [|? ? Ct Cq]; subst.
+    unfold InvQ. cbn [wire qlog queue]. destruct (cut s); [now repeat split|].
+    split; [|split]; [| |assumption]; (apply Forall_app; split; [assumption|]); (constructor; [|constructor]).
+    - unfold wire_ok, on_wire, sent_q. cbn [w_item w_q]. reflexivity.
+    - cbn [on_wire w_item]. exact Ct. }
   destruct o as [r|]; [|assumption].
-  destruct (waited (pump mof qof s) && sent (pump mof qof s) && readable (pump mof qof s) r); [|assumption].
-  set (p := pump mof qof s) in *. unfold complete.
+  destruct (waited (pump mof qof pq s) && sent (pump mof qof pq s) && readable (pump mof qof pq s) r); [|assumption].
+  set (p := pump mof qof pq s) in *. unfold complete.
   assert (D : forall st e c, InvQ (deliver p st e c)) by (intros; exact HP).
   destruct (redirectable p && is_redirect (rp_status r)); [|apply D].
   destruct (rp_loc r) as [l|]; [|apply D].
+  destruct HP as (A & B & C).
   match goal with |- context [if ?c then _ else _] => destruct c end.
-  - unfold InvQ. cbn [wire]. destruct (cut p || rp_close r); [exact HP|].
-    apply Forall_app. split; [exact HP|]. constructor; [exact I | constructor].
+  - unfold InvQ. cbn [wire qlog queue]. destruct (cut p || rp_close r); [now repeat split|].
+    split; [|split]; [| |assumption]; (apply Forall_app; split; [assumption|]); (constructor; [exact I|constructor]).
   - match goal with |- context [if ?c then _ else _] => destruct c end; [apply D|].
-    unfold InvQ. cbn [wire]. apply Forall_app. split; [exact HP|]. constructor; [exact I | constructor].
+    unfold InvQ. cbn [wire qlog queue].
+    split; [|split]; [| |assumption]; (apply Forall_app; split; [assumption|]); (constructor; [exact I|constructor]).
 Qed.
 
 Theorem wire_queries sec rd m evs :
-  Forall (fun w => match w_item w with WReq t => w_q w = qof t | WRedir _ => True end)
-         (wire (run mof qof (init_m sec rd m) evs)).
+  let s := run mof qof pq (init_m sec rd m) evs in
+  Forall (wire_ok (qlog s)) (wire s).
 Proof.
-  assert (G : forall evs s, InvQ s -> InvQ (run mof qof s evs)).
+  cbn zeta.
+  assert (G : forall evs s, InvQ s -> InvQ (run mof qof pq s evs)).
   { induction evs0 as [|e evs0 IH]; intros s H; [assumption|]. cbn [run fold_left].
-    fold (run mof qof (step mof qof s e) evs0). apply IH. now apply invQ_step. }
-  apply G. constructor.
+    fold (run mof qof pq (step mof qof pq s e) evs0). apply IH. now apply invQ_step. }
+  apply G. unfold InvQ, init_m. cbn. repeat split; constructor.
+Qed.
+
+(* what is recorded when a request is queued: its explicit qargs, else a copy of the requester's
+   current ones; an existing record is never rewritten *)
+Lemma enq_records s t :
+  qlog (enq qof s t) = qlog s ++ [(t, match qof t with Some q => q | None => snd (rq_target s) end)].
+Proof. reflexivity. Qed.
+
+Lemma qlog_grows s e : exists more, qlog (step mof qof pq s e) = qlog s ++ more.
+Proof.
+  destruct e as [t|o]; cbn [step].
+  - eexists. apply enq_records.
+  - exists []. rewrite app_nil_r.
+    assert (P : qlog (pump mof qof pq s) = qlog s).
+    { unfold pump. destruct (waited s); [reflexivity|]. destruct (queue s); reflexivity. }
+    destruct o as [r|]; [|exact P].
+    destruct (waited (pump mof qof pq s) && sent (pump mof qof pq s) && readable (pump mof qof pq s) r); [|exact P].
+    rewrite <- P. unfold complete.
+    destruct (redirectable _ && is_redirect _); [|reflexivity].
+    destruct (rp_loc r); [|reflexivity].
+    repeat match goal with |- context [if ?c then _ else _] => destruct c end; reflexivity.
 Qed.
 
 (* ------------------------------------------------------------------ *)
@@ -378,20 +434,20 @@ Definition InvM (s : cstate) : Prop :=
   waited s = true ->
   rs_method s = rq_method s /\ (forall t, inflight s = [Some t] -> rq_method s = mof t).
 
-Lemma invM_step all s e : Inv all s -> InvM s -> InvM (step mof qof s e).
+Lemma invM_step all s e : Inv all s -> InvM s -> InvM (step mof qof pq s e).
 Proof.
   intros HI HM. destruct e as [t|o]; cbn [step].
   - exact HM.
-  - assert (HP : InvM (pump mof qof s)).
+  - assert (HP : InvM (pump mof qof pq s)).
     { unfold pump. destruct (waited s) eqn:Hw; [exact HM|]. destruct (queue s) as [|t q]; [exact HM|].
       destruct HI as (_ & H2 & _). specialize (H2 Hw).
       unfold InvM, inflight. cbn [waited redirects latest rs_method rq_method]. rewrite H2.
       intros _. split; [reflexivity|]. intros t' E. now inversion E. }
     destruct o as [r|]; [|assumption].
-    destruct (waited (pump mof qof s)) eqn:Hw; [|assumption]. cbn [andb].
-    destruct (sent (pump mof qof s) && readable (pump mof qof s) r); [|assumption].
+    destruct (waited (pump mof qof pq s)) eqn:Hw; [|assumption]. cbn [andb].
+    destruct (sent (pump mof qof pq s) && readable (pump mof qof pq s) r); [|assumption].
     specialize (HP Hw). destruct HP as [E1 E2]. unfold inflight in E2. rewrite Hw in E2.
-    set (p := pump mof qof s) in *. unfold complete.
+    set (p := pump mof qof pq s) in *. unfold complete.
     assert (D : forall st e c, InvM (deliver p st e c)) by (intros st e c X; discriminate X).
     destruct (redirectable p && is_redirect (rp_status r)); [|apply D].
     destruct (rp_loc r) as [l|]; [|apply D].
@@ -404,21 +460,21 @@ Proof.
 Qed.
 
 Theorem method_tracks sec rd m evs :
-  let s := run mof qof (init_m sec rd m) evs in
+  let s := run mof qof pq (init_m sec rd m) evs in
   waited s = true ->
   rs_method s = rq_method s /\ (forall t, inflight s = [Some t] -> rq_method s = mof t).
 Proof.
   cbn zeta.
-  assert (G : forall evs all s, Inv all s -> InvM s -> InvM (run mof qof s evs)).
+  assert (G : forall evs all s, Inv all s -> InvM s -> InvM (run mof qof pq s evs)).
   { induction evs0 as [|e evs0 IH]; intros all s HI H; [assumption|]. cbn [run fold_left].
-    fold (run mof qof (step mof qof s e) evs0). eapply IH; [eapply inv_step; eassumption | eapply invM_step; eassumption]. }
+    fold (run mof qof pq (step mof qof pq s e) evs0). eapply IH; [eapply inv_step; eassumption | eapply invM_step; eassumption]. }
   apply (G evs [] (init_m sec rd m) (inv_init sec rd m)). intros X. discriminate X.
 Qed.
 
 (* hence a consumed reply is always readable: no reply is ever left half read or
    over-read because of the method, for every schedule *)
 Corollary always_readable sec rd m evs r :
-  let s := run mof qof (init_m sec rd m) evs in
+  let s := run mof qof pq (init_m sec rd m) evs in
   waited s = true -> readable s r = true.
 Proof.
   cbn zeta. intros Hw. destruct (method_tracks sec rd m evs Hw) as [E _].
